@@ -54,6 +54,62 @@ SHAPES = [('tag', 'A'), ('not', ('tag', 'A')), ('and', ('tag', 'A'), ('tag', 'B'
           ('and', ('tag', 'A'), ('not', ('tag', 'B'))), ('not', ('or', ('tag', 'A'), ('tag', 'B')))]
 
 
+def all_trees(nops, leaves=('A', 'B')):
+    """every tag-expression tree with exactly `nops` operator nodes"""
+    if nops == 0:
+        return [('tag', x) for x in leaves]
+    out = [('not', t) for t in all_trees(nops - 1, leaves)]
+    for k in range(nops):
+        for l in all_trees(k, leaves):
+            for r in all_trees(nops - 1 - k, leaves):
+                out.append(('and', l, r))
+                out.append(('or', l, r))
+    return out
+
+
+def eval_obligation(chk, prop, obs):
+    """`<TagOperation as tag::Ext>::eval` (and whatever it calls) on MIR for EVERY expression tree with <= 3 operator nodes
+    (and / or / not over two tag names; 1112 trees) over a tag list of two symbolic strings: the result equals the
+    Boolean formula for every truth assignment of the four tag equalities (decided by the solver on every path)."""
+    prog = chk.prog
+    t = prog.tables
+    ev = [b for (st, m), lst in prog.by_method.items() if m == 'eval' for tr, b in lst if tr == 'Ext' and st == 'TagOperation']
+    if len(ev) != 1:
+        raise Inconclusive('<TagOperation as tag::Ext>::eval: %d candidates' % len(ev))
+    vs = t.enum_variants('gherkin::tagexpr::TagOperation')
+    ix_tag = {v[0]: i for i, v in enumerate(vs)}
+    maxops = 3
+    shapes = [s for k in range(maxops + 1) for s in all_trees(k)]
+    o = chk.add(Obligation('%s.eval=boolean-formula' % prop, 'every and/or/not tree with <= %d operator nodes over 2 tag names (%d trees), tag list of 2 symbolic strings' % (maxops, len(shapes))))
+    o.verdict = 'holds'
+    obs['eval=boolean-formula'] = o
+    tags = ['t0', 't1']
+    ex, M = chk.new_exec(loop_bound=12, max_paths=200000)
+    for shape in shapes:
+        def run(ex_, shape=shape):
+            tv = Ref(Cell(Obj('vec', items=tuple(Obj('symstr', name=n) for n in tags), ty='Vec<String>'), name='tags'), ())
+            tree = Ref(Cell(tag_tree(ix_tag, shape), name='expr'), ())
+            return ex_.call_body(ev[0], [tree, tv])
+
+        def on_end(ex_, rec, shape=shape):
+            kind, r, pc, dec = rec
+            o.paths += 1
+            if kind != 'ok':
+                if o.verdict != 'violated':
+                    o.verdict = 'violated' if kind == 'panic' else 'inconclusive'
+                    o.detail = '%s: %s on %s' % (kind, r, shape)
+                return
+            o.queries += 1
+            want = tree_sem(shape, tags)
+            if ex_.check(r != want) and o.verdict != 'violated':
+                m = ex_.solver.model()
+                o.verdict = 'violated'
+                o.model = {'expression': repr(shape), 'tag equalities': {str(d): str(m[d]) for d in m.decls()}, 'eval': str(m.eval(r, model_completion=True)),
+                           'formula': str(m.eval(want, model_completion=True))}
+                o.detail = 'eval(%s) differs from the Boolean formula' % (shape,)
+        ex.explore(run, on_end)
+
+
 def body(chk):
     prog = chk.prog
     t = prog.tables
@@ -241,9 +297,18 @@ def body(chk):
                 o.verdict = 'violated'
                 o.detail = 'feature fields other than the scenario lists changed'
         ex.explore(run, on_end)
+    eval_obligation(chk, 'C15', obs)
     bad = [o for o in obs.values() if o.verdict == 'violated']
     if bad:
         confirm(chk, bad)
+    else:
+        # no violation: the native grid must agree with the reference (validates the reference the confirmations rely on)
+        probe = Obligation('C15.native-grid-agrees-with-reference', 'driver mode filter: features x filters grid')
+        probe.verdict, probe.detail = 'violated', ''
+        confirm(chk, [probe])
+        probe.kind = 'witness'
+        probe.verdict = 'witness-ok' if 'follows the reference' in probe.detail else 'witness-missing'
+        chk.add(probe)
     w = chk.add(Obligation('C15.witness', 'exploration'))
     w.kind = 'witness'
     w.verdict = 'witness-ok' if npaths[0] >= 100 and 'rule-scenarios=exactly-the-accepted-in-order' in obs else 'witness-missing'
@@ -265,7 +330,10 @@ def confirm(chk, bad):
     chk.replays += 1
     exprs = {'tags1': lambda t: 'smoke' in t, 'tags2': lambda t: 'wip' not in t, 'tags3': lambda t: 'smoke' in t and 'wip' not in t,
              'tags4': lambda t: 'wip' in t or 'slow' in t, 'tags5': lambda t: not ('smoke' in t or 'wip' in t),
-             'tags6': lambda t: 'slow' not in t, 'tags7': lambda t: 'x' in t and 'slow' not in t}
+             'tags6': lambda t: 'slow' not in t, 'tags7': lambda t: 'x' in t and 'slow' not in t,
+             'tags8': lambda t: 'smoke' in t, 'tags9': lambda t: not ('smoke' in t and 'wip' not in t),
+             'tags10': lambda t: not ('wip' in t or 'slow' not in t),
+             'tags11': lambda t: not ((not ('smoke' in t or 'wip' in t)) and 'slow' not in t)}
     scen = [('t_plain', False, []), ('t_wip', False, ['wip']), ('r_plain', True, []), ('r_wip', True, ['wip']), ('r_slow', True, ['slow'])]
     devs, n = [], 0
     for ln in out.splitlines():
